@@ -239,6 +239,25 @@ var tvKinds = []string{"canonical", "canonical", "json-scalar", "string", "int",
 // oddTV draws a TypedValue of any kind; in (optional) is the leaf instance it is aimed at.
 func oddTV(rt *rapid.T, in *model.Inst, label string) (*gpb.TypedValue, string) {
 	kind := rapid.SampledFrom(tvKinds).Draw(rt, label+".tvkind")
+	// one time in four the value kinds that belong to the leaf's own type (with odd contents): the type-specific
+	// decoding code is only reached by a value of the matching kind
+	if in != nil && in.F != nil && in.F.Type != nil && rapid.IntRange(0, 3).Draw(rt, label+".matchkind") == 0 {
+		switch k := in.F.Type.VKind(); {
+		case k == model.KDec:
+			kind = rapid.SampledFrom([]string{"decimal", "float", "double"}).Draw(rt, label+".deckind")
+		case k.Signed():
+			kind = "int"
+		case k.Unsigned():
+			kind = rapid.SampledFrom([]string{"uint", "int-for-uint"}).Draw(rt, label+".uintkind")
+		case k == model.KBin:
+			kind = "bytes"
+		case k == model.KBool || k == model.KEmpty:
+			kind = "bool"
+		}
+		if in.F.Kind == model.FLeafList && rapid.Bool().Draw(rt, label+".llkind") {
+			kind = rapid.SampledFrom([]string{"leaflist", "leaflist-mixed", "leaflist-nil-elem", "leaflist-empty"}).Draw(rt, label+".llk")
+		}
+	}
 	str := func() string {
 		if rapid.Bool().Draw(rt, label+".oddstr") {
 			return rapid.SampledFrom(oddStrings).Draw(rt, label+".sv")
@@ -360,7 +379,7 @@ func oddTV(rt *rapid.T, in *model.Inst, label string) (*gpb.TypedValue, string) 
 	return nil, "nil"
 }
 
-var jsonSnippets = []string{`1`, `-1`, `1.5`, `"x"`, `"1"`, `true`, `null`, `[null]`, `[]`, `{}`, `[1]`, `["a","a"]`, `[{}]`, `{"a":1}`, `{"config":{"name":"x"}}`, `{"k":"a","v":"b"}`,
+var jsonSnippets = []string{`[{"a":1},42]`, `{"l":[{"k":"a"},null,{"k":"b"}]}`, `{"subs":{"sub":[{"index":0},42]}}`, `[{"k":"a"},"x"]`, `1`, `-1`, `1.5`, `"x"`, `"1"`, `true`, `null`, `[null]`, `[]`, `{}`, `[1]`, `["a","a"]`, `[{}]`, `{"a":1}`, `{"config":{"name":"x"}}`, `{"k":"a","v":"b"}`,
 	`[[null]]`, `{"":1}`, `"AA=="`, `"RED"`, `"vt-types:CIRCLE"`, `18446744073709551616`, `"18446744073709551615"`, `1e400`, `[1,"a",true,null]`, `{"top":{"keyed":{"k-str":[1]}}}`, `{"k-str":[null]}`}
 
 // oddRequest derives a SetRequest from a valid one by drawn mutations.
